@@ -22,13 +22,16 @@ CLASS_DTYPES = {"Signal": ["float64", "complex64"], "RadioSignal": ["float32", "
                 "BasebandSignal": ["complex128", "complex64"], "DualPolarizationSignal": ["complex128", "complex64"]}
 
 
-def sym_array(name, shape, dtype, backend="numpy", nm=None):
+def sym_array(name, shape, dtype, backend="numpy", nm=None, scale=None):
     """Array with uninterpreted contents (symbolic mode) or deterministic coded contents
     (concrete mode, for replay / the bounded layer)."""
     dt = dtype if isinstance(dtype, DType) else DType(dtype)
     nd = len(shape)
     if nm is not None and nm.concrete:
         from .concrete import code_value
+        if scale is not None:
+            k = nm.real(f"{name}_scale", scale)
+            return SArr(shape, lambda ix: code_value(name, ix, dt.kind) * k, dt, backend, name=name)
         return SArr(shape, lambda ix: code_value(name, ix, dt.kind), dt, backend, name=name)
     if dt.kind == "c":
         fre = z3.Function(f"{name}_re", *([z3.IntSort()] * nd), z3.RealSort())
